@@ -19,7 +19,9 @@ THEOREMS = [_T + t for t in (
     "two_phase_as_coded", "saturated_branch", "vanished_branch", "satCell_eq_closed", "satCells_eq_closed",
     "computeSaturations_eq_closed", "computeSaturations_consistent",
     "chainrule_closed_form", "dxn_is_jacobian", "dxn_difference_quotient", "chainrule_is_derivative",
-    "normalize_rows_sum_one", "safeSum_eq_sum")]
+    "normalize_rows_sum_one", "safeSum_eq_sum",
+    "codedSolution_eq_sat", "codedSolution_solves", "snap_reproduction", "snap_reproduction_error_le", "snap_sum_error",
+    "snap_defect_le", "snap_saturated_error_le")]
 LEAN_MODULES = ["PorepyVerif.C42.Props"]
 AUDIT = "PorepyVerif/C42/Audit.lean"
 DRIVER = "PorepyVerif/C42/Driver.lean"
@@ -27,31 +29,47 @@ N = {"quick": 400, "thorough": 8000}
 TOL = 1e-10
 RULE = ("one call per case. sat (55%): (num_phases 1-5) x (0-40 cells) arrays handed to compute_saturations at once (or one 1-D cell); every "
         "cell is a composition k_i/D (D dyadic => exactly on the simplex in binary64, or D in 3,5,6,7,10,12,20,100) of kind interior / "
-        "with 1..n-2 vanished phases (exact 0) / saturated (exact 1) / within-eps (2^-50-size deviations from a saturated or vanished "
-        "state); densities p/q in [1/8, 4000]; eps in {1e-10 (default), 1e-8, 1e-6}; nonzero fractions are >= 1/100 and <= 1-1/100 unless "
+        "with 1..n-2 vanished phases (exact 0; placed at the FRONT / MIDDLE / TAIL / random positions of the phase list, half of them leaving "
+        "exactly two phases present) / saturated (exact 1) / near (2^-50-size deviations) / snap-vanished (0 < y_k <= eps: eps, eps/2, eps/8, "
+        "same position strata) / snap-saturated (y_j = 1 - eps/2, 1 - eps/4); non-uniform densities p/q in [1/10, 4000] everywhere; eps in {1e-10 (default), 1e-8, 1e-6}; nonzero fractions are >= 1/100 and <= 1-1/100 unless "
         "saturated, i.e. far from the eps thresholds; malformed stream: shape mismatch, two saturated phases. chain (25%): "
         "df_dxn of shape (0-3 + ncomp, 0-30 columns), ncomp 1-5, x = positive / partly zero / partly negative rationals with |sum| >= 1/4 "
         "(normalised and non-normalised), vectorised or 1-D; malformed: too few rows, column mismatch. norm (12%): 0-20 rows x 1-6 "
         "columns, signed entries, |row sum| >= 1/10. safe_sum (8%): 0-8 exact Fractions. Non-trivial = at least one cell/column/row "
         "and, for sat, >= 2 phases; distinct = distinct case JSON")
 TRUSTED = [
-    "modelled, not verified: np.linalg.solve (LAPACK) — the model returns the closed form; theorems sat_solves_coded_system + coded_system_unique "
-    "show it is the unique solution of the system exactly as assembled by the code; floating-point rounding of the solve / divisions is covered only "
+    "modelled, not verified: np.linalg.solve (LAPACK) — the model returns the explicit solution codedSolution (= the closed form when the "
+    "fractions handed to the solve sum to one); theorems codedSolution_solves / sat_solves_coded_system show it solves the system exactly as "
+    "assembled by the code, coded_system_unique shows uniqueness for fractions summing to one (uniqueness for the eps-snapped case, defect d > 0, "
+    "is not proved — there the tie is the 1e-10 correspondence on the snap-vanished cells); floating-point rounding of the solve / divisions is covered only "
     "by the correspondence tolerance 1e-10",
     "numba njit / prange compilation of the anchored functions (called as they are, compiled)",
     "transposition between numpy (phase, cell) arrays and the model's list of cells is harness glue",
     "the model compares against eps exactly; inputs within 1e-16 of 1-eps or eps are not generated",
 ]
-EXPLANATION = ("FULL: model = compute_saturations branch for branch (1 phase / saturated / 2-phase formula as coded / masked n-phase) with the closed form "
+EXPLANATION = ("FULL (notes: see NOTES in harness/props/c42.py): model = compute_saturations branch for branch (1 phase / saturated / 2-phase formula as coded / masked n-phase) with the closed form "
                "s_j = (y_j/rho_j)/sum_k(y_k/rho_k) in place of linalg.solve, chain rule with the Jacobian as assembled, normalize_rows, safe_sum. Theorems: "
                "closed form is >= 0, sums to 1, reproduces y, solves the coded system uniquely (any n); all branches equal the closed form under "
                "simplex + eps-margin hypotheses; whole vectorised function consistent; coded Jacobian = derivative of x/sum(x) (HasDerivAt over R) and the "
                "code's output = derivative of f(x/sum x) for any differentiable f; normalised rows sum to 1. Correspondence: outputs of the real njit "
                "functions vs the exact rational model on the binary64 inputs, tolerance 1e-10. Oracle: property checked directly on the real code "
-               "(non-negativity, unit sum, reproduction of fractions, vectorised == per-cell, exact-rational central finite difference of a non-linear "
+               "(non-negativity, unit sum, reproduction of fractions — within the proved snap_* bounds when a phase is within eps of vanished/saturated —, vectorised == per-cell, exact-rational central finite difference of a non-linear "
                "test function, Euler identity x . grad = 0, row sums, proportionality).")
+NOTES = [
+    "utils.py at this commit contains only safe_sum, normalize_rows, _chainrule_fractional_derivatives(+_parallel, public wrapper), "
+    "_compute_saturations(+_parallel, public wrapper, eps argument varied by the generator) and the exception class "
+    "CompositionalModellingError (a bare Exception subclass, nothing to verify): all functions are modelled; there are no extended/partial "
+    "fraction helpers in this file",
+    "observation (outside the property): docstring of compute_saturations says eps default=1e-8, the signature has 1e-10",
+    "observation (outside the property): chainrule_fractional_derivatives(2-D df_dxn, 1-D x) raises IndexError (x.shape[1]) where the "
+    "docstring promises ValueError for mismatching dimensions",
+    "in the eps-snapping regime (some 0 < y_j <= eps, >= 3 phases) the saturations returned by the solve do not sum to one exactly: "
+    "sum - 1 = (sum rho s) d / P (theorem snap_sum_error); the public function does not renormalise",
+]
 ASSUMPTIONS = ["fractions on the simplex up to binary64 rounding of k/D (exact for dyadic D), densities > 0",
-               "inputs keep clear of the eps thresholds (either exactly 0 / 1, within 2^-47 of them, or at least 1/100 away)"]
+               "exact consistency (tolerance 1e-10) is claimed for inputs clear of the eps thresholds (exactly 0 / 1 or at least 1/100 away); for inputs "
+               "within eps of a vanished / saturated state the claim is the quantitative bound of the snap_* theorems (density ratio x dropped mass)",
+               "no input is closer than 1e-16 (relative) to 1-eps from below, where the float and the exact comparison could differ"]
 
 DYADIC = [2, 4, 8, 16, 32, 64]
 OTHER = [3, 5, 6, 7, 10, 12, 20, 100]
@@ -82,17 +100,37 @@ def _rho(rng, small=False):
     return Fraction(rng.randint(200, 4000), 1) if rng.random() < 0.5 else Fraction(rng.randint(1, 30), 10)
 
 
-def _cell(rng, n, dy):
+def _place(rng, present, nv, fill):
+    """put `nv` copies/values of the dropped phases at the FRONT / MIDDLE / TAIL of the phase list or at random places"""
+    drop = fill if isinstance(fill, list) else [fill] * nv
+    pos = rng.choice(["front", "front", "middle", "tail", "random"])
+    if pos == "front":
+        # index 0, or indices 0..nv-1, or index 1 only (a present phase first, then the dropped ones)
+        if rng.random() < 0.3 and len(present) >= 1:
+            return pos, present[:1] + drop + present[1:]
+        return pos, drop + present
+    if pos == "tail":
+        return pos, present + drop
+    if pos == "middle":
+        k = rng.randint(1, max(1, len(present) - 1))
+        return pos, present[:k] + drop + present[k:]
+    y = present + drop
+    rng.shuffle(y)
+    return pos, y
+
+
+def _cell(rng, n, dy, eps):
     """one composition for n phases; returns (kind, [Fraction])."""
     if n == 1:
         return "single", [Fraction(1)]
     r = rng.random()
     pool = DYADIC if dy else OTHER
-    if r < 0.14:
+    e = Fraction(eps)
+    if r < 0.12:
         y = [Fraction(0)] * n
         y[rng.randrange(n)] = Fraction(1)
         return "saturated", y
-    if r < 0.20:  # within eps of a saturated state (eps >= 1e-10 >> 2^-47)
+    if r < 0.17:  # within 2^-48 of a saturated state
         d = Fraction(1, 2 ** rng.randint(48, 52))
         j = rng.randrange(n)
         k = rng.randint(1, n - 1)
@@ -102,21 +140,38 @@ def _cell(rng, n, dy):
             y[i] = d
         y[j] = 1 - k * d
         return "near-saturated", y
-    if r < 0.26 and n >= 3:  # tiny but non-zero vanished phases
+    if r < 0.23:  # snapped to saturated: y_j = 1 - eps/2 or 1 - eps/4, the rest shared by the other phases
+        t = e / rng.choice([2, 4])
+        j = rng.randrange(n)
+        k = rng.randint(1, n - 1)
+        idx = rng.sample([i for i in range(n) if i != j], k)
+        y = [Fraction(0)] * n
+        for i in idx:
+            y[i] = t / k
+        y[j] = 1 - t
+        return "snap-saturated", y
+    if r < 0.28 and n >= 3:  # tiny but non-zero vanished phases
         d = Fraction(1, 2 ** rng.randint(48, 52))
         nv = rng.randint(1, n - 2)
         D = rng.choice([x for x in DYADIC if x >= n - nv and x >= 4])
-        parts = _composition(rng, n - nv, D)
-        y = [Fraction(p, D) for p in parts] + [d] * nv
-        y[0] -= nv * d
-        rng.shuffle(y)
-        return "near-vanished", y
-    if r < 0.55 and n >= 3:
-        nv = rng.randint(1, n - 2)
+        parts = [Fraction(p, D) for p in _composition(rng, n - nv, D)]
+        parts[rng.randrange(len(parts))] -= nv * d
+        pos, y = _place(rng, parts, nv, d)
+        return "near-vanished-" + pos, y
+    if r < 0.40 and n >= 3:  # snapped to vanished: 0 < y_k <= eps, i.e. the solve sees fractions summing to 1 - d
+        nv = n - 2 if rng.random() < 0.5 else rng.randint(1, n - 2)
+        drop = [e / rng.choice([1, 2, 8]) for _ in range(nv)]
+        D = rng.choice([x for x in DYADIC if x >= n - nv and x >= 4])
+        parts = [Fraction(p, D) for p in _composition(rng, n - nv, D)]
+        parts[rng.randrange(len(parts))] -= sum(drop)
+        pos, y = _place(rng, parts, nv, drop)
+        return "snap-vanished-" + pos, y
+    if r < 0.68 and n >= 3:  # exactly vanished phases, positions stratified, often exactly two phases left
+        nv = n - 2 if rng.random() < 0.5 else rng.randint(1, n - 2)
         D = rng.choice([x for x in pool if x >= n - nv and x >= 3] or [8])
-        parts = _composition(rng, n - nv, D) + [0] * nv
-        rng.shuffle(parts)
-        return "vanished", [Fraction(p, D) for p in parts]
+        parts = [Fraction(p, D) for p in _composition(rng, n - nv, D)]
+        pos, y = _place(rng, parts, nv, Fraction(0))
+        return "vanished-" + pos, y
     D = rng.choice([x for x in pool if x >= n and x >= 3] or [8])
     return "interior", [Fraction(p, D) for p in _composition(rng, n, D)]
 
@@ -127,13 +182,14 @@ def _gen_sat(rng, tier):
     big = 40 if tier == "quick" else 120
     ncell = rng.choice([0, 1, 1, 2, 3, rng.randint(4, big), rng.randint(4, big)]) if vec else 1
     dy = rng.random() < 0.5
+    eps = rng.choice(EPS)
     kinds, y, rho = [], [], []
     for _ in range(ncell):
-        k, c = _cell(rng, n, dy)
+        k, c = _cell(rng, n, dy, eps)
         kinds.append(k)
         y.append([_q(v) for v in c])
-        rho.append([_q(_rho(rng, small=k.startswith("near"))) for _ in range(n)])
-    case = {"kind": "sat", "vec": vec, "eps": rng.choice(EPS), "y": y, "rho": rho, "cell_kinds": kinds}
+        rho.append([_q(_rho(rng)) for _ in range(n)])
+    case = {"kind": "sat", "vec": vec, "eps": eps, "y": y, "rho": rho, "cell_kinds": kinds}
     m = rng.random()
     if m < 0.06 and ncell >= 1 and n >= 2:  # two saturated phases in one cell
         c = rng.randrange(ncell)
@@ -321,6 +377,21 @@ def _fail(key, what):
     return {"key": key, "what": what}
 
 
+def _snap_tolerances(y, rho, eps):
+    """allowed deviations (sum, reproduction of present phases, reproduction of dropped phases) = TOL plus the bounds of the
+    theorems snap_saturated_error_le / snap_reproduction_error_le / snap_sum_error: with d = mass of the phases with y <= eps,
+    m = number of present phases, q = max/min density of the present phases: q d / ((1-d)(m-1)), q d / (m-1), eps."""
+    if len(y) >= 2 and max(y) >= 1.0 - eps:  # snapped to a saturated phase: s = e_j exactly
+        return TOL, TOL + eps, TOL + eps
+    present = [(a, r) for a, r in zip(y, rho) if a > eps]
+    d = float(sum(Fraction(a) for a in y if a <= eps))
+    if d == 0 or len(present) < 2:
+        return TOL, TOL, TOL
+    q = max(r for _, r in present) / min(r for _, r in present)
+    m = len(present)
+    return TOL + q * d / ((1 - d) * (m - 1)), TOL + q * d / (m - 1), TOL + eps
+
+
 def _oracle_sat(case):
     mal = case.get("malformed")
     try:
@@ -344,15 +415,18 @@ def _oracle_sat(case):
             return _fail("sat-nonfinite", f"cell {c} ({kind}) y={case['y'][c]} rho={case['rho'][c]}: s={[float(v) for v in s[:, c]]}")
         if any(v < 0 for v in sc):
             return _fail("sat-negative", f"cell {c} ({kind}) y={case['y'][c]} rho={case['rho'][c]}: negative saturation {[float(v) for v in s[:, c]]}")
-        if abs(sum(sc) - 1) > TOL:
-            return _fail("sat-sum", f"cell {c} ({kind}) y={case['y'][c]} rho={case['rho'][c]}: saturations sum to {float(sum(sc))!r}")
+        t_sum, t_present, t_dropped = _snap_tolerances(y[c], rho[c], case["eps"])
+        if abs(sum(sc) - 1) > t_sum:
+            return _fail("sat-sum", f"cell {c} ({kind}) y={case['y'][c]} rho={case['rho'][c]}: saturations sum to {float(sum(sc))!r} "
+                                    f"(allowed deviation {t_sum:.3g})")
         rs = [Fraction(r) * v for r, v in zip(rho[c], sc)]
         tot = sum(rs)
         for j, (a, yj) in enumerate(zip(rs, y[c])):
-            if tot == 0 or abs(a / tot - Fraction(yj)) > TOL:
+            tj = t_dropped if yj <= case["eps"] else t_present
+            if tot == 0 or abs(a / tot - Fraction(yj)) > tj:
                 got = float(a / tot) if tot else float("nan")
                 return _fail("sat-fractions", f"cell {c} ({kind}) y={case['y'][c]} rho={case['rho'][c]} s={[float(v) for v in s[:, c]]}: "
-                                              f"rho_j s_j/sum = {got!r} but y_{j} = {yj!r}")
+                                              f"rho_j s_j/sum = {got!r} but y_{j} = {yj!r} (allowed deviation {tj:.3g})")
         if case["vec"]:  # vectorised result == per-cell result
             s1 = U.compute_saturations(np.array(y[c]), np.array(rho[c]), case["eps"])
             if not np.array_equal(np.asarray(s1), s[:, c]):
@@ -478,6 +552,12 @@ def stats(cases, impl_outs):
     from collections import Counter
     kinds = Counter(c["kind"] for c in cases)
     cells = Counter(k for c in cases if c["kind"] == "sat" for k in c["cell_kinds"])
+    front = 0  # cells (>= 3 phases) whose phase 0 or 1 is dropped (y <= eps) while the densities of phases 0 and 1 differ
+    for c in cases:
+        if c["kind"] == "sat" and not c.get("malformed"):
+            for yc, rc in zip(_fl(c["y"]), _fl(c["rho"])):
+                if len(yc) >= 3 and max(yc) < 1 - c["eps"] and min(yc[0], yc[1]) <= c["eps"] and rc[0] != rc[1]:
+                    front += 1
     phases = Counter(len(c["y"][0]) for c in cases if c["kind"] == "sat" and c["y"])
     exact = 0
     for c in cases:
@@ -486,7 +566,7 @@ def stats(cases, impl_outs):
                 if sum(Fraction(v) for v in yc) == 1:
                     exact += 1
     return {"kinds": dict(kinds), "sat_cells_by_kind": dict(cells), "sat_cases_by_phases": {str(k): v for k, v in sorted(phases.items())},
-            "sat_cells_exactly_on_simplex_in_binary64": exact,
+            "sat_cells_exactly_on_simplex_in_binary64": exact, "sat_cells_dropped_phase_at_index_0_or_1_with_distinct_densities": front,
             "sat_cells_total": sum(len(c["y"]) for c in cases if c["kind"] == "sat"),
             "sat_1d_calls": sum(1 for c in cases if c["kind"] == "sat" and not c["vec"]),
             "malformed": dict(Counter(c["malformed"] for c in cases if c.get("malformed"))),
